@@ -1,6 +1,6 @@
 SPECIFICATION Spec
 CONSTANTS
-  MaxTok = 3
+  MaxTok = 4
   NTok = 20
   EmitB = TRUE
 INVARIANTS Terminates AgreesWithRun ResultOk EmitBehaviour
